@@ -359,4 +359,7 @@ VARIANTS = [
     {'name': 'R2 SOCKS transport inherits the outbound-only refusal', 'expect': 'C06.R2', 'edits': [{'file': 'hippolyzer/lib/base/network/transport.py', 'old': '    def send_packet(self, packet: UDPPacket) -> None:\n        if not packet.outgoing:\n            raise ValueError(f"{self.__class__.__name__} can only send outbound packets")\n        self.transport.sendto(packet.data, packet.dst_addr)\n', 'new': '    OUTBOUND_ONLY = True\n\n    @classmethod\n    def serialize(cls, packet: UDPPacket) -> bytes:\n        return packet.data\n\n    def send_packet(self, packet: UDPPacket) -> None:\n        if self.OUTBOUND_ONLY and not packet.outgoing:\n            raise ValueError(f"{self.__class__.__name__} can only send outbound packets")\n        self.transport.sendto(self.serialize(packet), packet.dst_addr)\n'}, {'file': 'hippolyzer/lib/proxy/transport.py', 'old': '        header = cls.HEADER_STRUCT.pack(\n            0, 0, 1, socket.inet_aton(packet.far_addr[0]), packet.far_addr[1])\n        return header + packet.data\n\n    def send_packet(self, packet: UDPPacket) -> None:\n        self.transport.sendto(self.serialize(packet), packet.dst_addr)\n', 'new': '        return cls.make_header(packet.far_addr) + packet.data\n\n    HEADER_RSV = 0\n    HEADER_FRAG = 0\n    HEADER_ATYP_IPV4 = 1\n    OUTBOUND_ONLY = True\n\n    @classmethod\n    def make_header(cls, far_addr) -> bytes:\n        return cls.HEADER_STRUCT.pack(\n            cls.HEADER_RSV, cls.HEADER_FRAG, cls.HEADER_ATYP_IPV4, socket.inet_aton(far_addr[0]), far_addr[1])\n'}]},
     {'name': 'R1 header address type constant of the class is 4', 'expect': 'C06.R1', 'edits': [{'file': 'hippolyzer/lib/base/network/transport.py', 'old': '    def send_packet(self, packet: UDPPacket) -> None:\n        if not packet.outgoing:\n            raise ValueError(f"{self.__class__.__name__} can only send outbound packets")\n        self.transport.sendto(packet.data, packet.dst_addr)\n', 'new': '    OUTBOUND_ONLY = True\n\n    @classmethod\n    def serialize(cls, packet: UDPPacket) -> bytes:\n        return packet.data\n\n    def send_packet(self, packet: UDPPacket) -> None:\n        if self.OUTBOUND_ONLY and not packet.outgoing:\n            raise ValueError(f"{self.__class__.__name__} can only send outbound packets")\n        self.transport.sendto(self.serialize(packet), packet.dst_addr)\n'}, {'file': 'hippolyzer/lib/proxy/transport.py', 'old': '        header = cls.HEADER_STRUCT.pack(\n            0, 0, 1, socket.inet_aton(packet.far_addr[0]), packet.far_addr[1])\n        return header + packet.data\n\n    def send_packet(self, packet: UDPPacket) -> None:\n        self.transport.sendto(self.serialize(packet), packet.dst_addr)\n', 'new': '        return cls.make_header(packet.far_addr) + packet.data\n\n    HEADER_RSV = 0\n    HEADER_FRAG = 0\n    HEADER_ATYP_IPV4 = 4\n    OUTBOUND_ONLY = False\n\n    @classmethod\n    def make_header(cls, far_addr) -> bytes:\n        return cls.HEADER_STRUCT.pack(\n            cls.HEADER_RSV, cls.HEADER_FRAG, cls.HEADER_ATYP_IPV4, socket.inet_aton(far_addr[0]), far_addr[1])\n'}]},
     {'name': 'R2 shared send_packet sends the bare data, SOCKS framing bypassed', 'expect': 'C06.R2', 'edits': [{'file': 'hippolyzer/lib/base/network/transport.py', 'old': '    def send_packet(self, packet: UDPPacket) -> None:\n        if not packet.outgoing:\n            raise ValueError(f"{self.__class__.__name__} can only send outbound packets")\n        self.transport.sendto(packet.data, packet.dst_addr)\n', 'new': '    OUTBOUND_ONLY = True\n\n    @classmethod\n    def serialize(cls, packet: UDPPacket) -> bytes:\n        return packet.data\n\n    def send_packet(self, packet: UDPPacket) -> None:\n        if self.OUTBOUND_ONLY and not packet.outgoing:\n            raise ValueError(f"{self.__class__.__name__} can only send outbound packets")\n        self.transport.sendto(packet.data, packet.dst_addr)\n'}, {'file': 'hippolyzer/lib/proxy/transport.py', 'old': '        header = cls.HEADER_STRUCT.pack(\n            0, 0, 1, socket.inet_aton(packet.far_addr[0]), packet.far_addr[1])\n        return header + packet.data\n\n    def send_packet(self, packet: UDPPacket) -> None:\n        self.transport.sendto(self.serialize(packet), packet.dst_addr)\n', 'new': '        return cls.make_header(packet.far_addr) + packet.data\n\n    HEADER_RSV = 0\n    HEADER_FRAG = 0\n    HEADER_ATYP_IPV4 = 1\n    OUTBOUND_ONLY = False\n\n    @classmethod\n    def make_header(cls, far_addr) -> bytes:\n        return cls.HEADER_STRUCT.pack(\n            cls.HEADER_RSV, cls.HEADER_FRAG, cls.HEADER_ATYP_IPV4, socket.inet_aton(far_addr[0]), far_addr[1])\n'}]},
+    # ------------------------------------------------------------------ round 9 seeds
+    {'name': 'R2 association bound to the address announced in the request (seed C06-r9-1)', 'expect': 'C06.R2', 'edits': [{'file': 'hippolyzer/lib/proxy/socks_proxy.py', 'old': '                    self._udp_protocol_creator(writer.get_extra_info("peername")),\n', 'new': '                    self._udp_protocol_creator((_address, _port)),\n'}]},
+    {'name': 'P R2 peer address of the control connection taken into a local first', 'expect': 'silent', 'edits': [{'file': 'hippolyzer/lib/proxy/socks_proxy.py', 'old': '                transport, protocol = await loop.create_datagram_endpoint(\n                    self._udp_protocol_creator(writer.get_extra_info("peername")),\n', 'new': '                client_addr = writer.get_extra_info("peername")\n                transport, protocol = await loop.create_datagram_endpoint(\n                    self._udp_protocol_creator(client_addr),\n'}]},
 ]
